@@ -543,8 +543,7 @@ def binary_case(ctx, rep, case):
                     return
                 current = path
             elif current is not None and path != current and not case.get("multi_sided"):
-                conflict_first = any(a2.startswith("@@@") and b2.startswith("++<<<<<<<") for a2, b2 in zip(lines, lines[1:]))
-                report(rep, "wrong-target:section:conflict-first-hunk-line" if conflict_first else "wrong-target:section", "a line-number link points at another file than its section's",
+                report(rep, "wrong-target:section", "a line-number link points at another file than its section's",
                               dict(kind="binary", row=i, url=u, text=t, want=current, **case))
                 return
             if line is not None:
@@ -600,6 +599,20 @@ def site_of(row):
 def binary_cases(ctx):
     rng = ctx.rng
     cases = []
+    # always: the sections without hunks under --relative-paths below a prefix (empty added / deleted file, binary
+    # added / modified / renamed, mode-only change)
+    fixed = ["diff --git a/sub/e.txt b/sub/e.txt", "new file mode 100644", "index 0000000..e69de29",
+             "diff --git a/empty.md b/empty.md", "deleted file mode 100644", "index e69de29..0000000",
+             "diff --git a/sub/y.bin b/sub/y.bin", "new file mode 100644", "index 0000000..2222222", "Binary files /dev/null and b/sub/y.bin differ",
+             "diff --git a/img/x.png b/img/x.png", "index 1111111..2222222 100644", "Binary files a/img/x.png and b/img/x.png differ",
+             "diff --git a/z.dat b/moved/z.dat", "similarity index 90%", "rename from z.dat", "rename to moved/z.dat",
+             "index 1111111..2222222 100644", "Binary files a/z.dat and b/moved/z.dat differ",
+             "diff --git a/sub/deep/x.md b/sub/deep/x.md", "old mode 100644", "new mode 100755"]
+    ffiles = ["sub/e.txt", "empty.md", "sub/y.bin", "img/x.png", "z.dat", "moved/z.dat", "sub/deep/x.md"]
+    for mode in (["--relative-paths"], ["--line-numbers", "--relative-paths"], []):
+        for prefix in ("sub/", None):
+            cases.append(dict(lines=fixed, files=ffiles, fmt="file://{path}", cfmt=None, mode=mode, prefix=prefix,
+                              invertible=True, xform=None, caller=None))
     for _ in range(ctx.n(60, 2500)):
         lines, files = gen_input(rng)
         inv = rng.random() < 0.75
